@@ -162,7 +162,7 @@ func modelTx(op *Op, before dbState, rowids bool) *txModel {
 				data = map[string]any{}
 				for k, x := range mm {
 					nk := subst(k)
-					if s, isStr := x.(string); isStr && len(dictVal) > 0 && strings.HasPrefix(s, "{{") && strings.HasSuffix(s, "}}") {
+					if s, isStr := x.(string); isStr && (len(dictVal) > 0 || poisoned) && strings.HasPrefix(s, "{{") && strings.HasSuffix(s, "}}") {
 						// the whole value is a reference: it is replaced by the
 						// symbol's value, whatever its type
 						name := strings.TrimSuffix(strings.TrimPrefix(s, "{{"), "}}")
@@ -504,7 +504,7 @@ func judgeTx(res *opResult, op *Op, m *txModel, before, after dbState, resp *srv
 			res.fail = &vkit.Failure{Sig: "rows | rows!=model", Observed: describe(), Expected: "rows ⊆ " + renderRows(m.finalMay, m.finalCols)}
 			return
 		}
-		if !subMultiset(m.finalMust, rows, m.finalCols) {
+		if !covers(m.finalMust, rows, m.finalCols) {
 			res.fail = &vkit.Failure{Sig: "rows | rows!=model", Observed: describe(), Expected: "rows ⊇ " + renderRows(m.finalMust, m.finalCols)}
 			return
 		}
